@@ -19,14 +19,19 @@
 (* `changed` computation and facts that persist from one run to the next.      *)
 (*                                                                             *)
 (* Design properties (TLC, all graphs up to the bound):                        *)
-(*   SweepBound   every run stops within SweepLimit(N) sweeps      (C12, C06)  *)
+(*   SweepBound   every run stops within ModelSweepLimit(N) sweeps (C12, C06)  *)
 (*   FixedPoint   when a run stops, in[n] is the meet of the out of ALL        *)
-(*                predecessors and out[n] = F(in[n])                (C12)      *)
+(*                predecessors (nothing, for a node that had to be promoted    *)
+(*                to a root: it is an entry of unreachable code) and           *)
+(*                out[n] = F(in[n])                                 (C12)      *)
 (*   Stable       a run started on the facts a run left behind changes         *)
 (*                nothing                                           (C12)      *)
 (* The switches FirstVisitCounts / WaitForVisited select the scheme before the *)
-(* repairs 35309c1 / 3bcec8a; with either off TLC finds the counterexample     *)
-(* (PassLoop_old*.cfg are the negative controls of this model).                *)
+(* repairs 35309c1 / 3bcec8a, RootsAreEntries the one before the roots were    *)
+(* pinned; with any of them off TLC finds the counterexample (PassLoop_old*.cfg *)
+(* are the negative controls of this model; old3 needs N = 4: facts that flip  *)
+(* between two states for ever - found by this model, then reproduced on the   *)
+(* real pass with an unreachable region of five statements).                   *)
 EXTENDS Integers, Sequences, FiniteSets, TLC, PassOps
 
 CONSTANTS N,                  \* number of nodes; cfg.iter() visits 1, 2, .., N
@@ -34,7 +39,10 @@ CONSTANTS N,                  \* number of nodes; cfg.iter() visits 1, 2, .., N
           MaxOut,             \* out-degree bound of the enumerated graphs
           Runs,               \* number of runs of the pass (>= 2: the last one must change nothing)
           FirstVisitCounts,   \* TRUE: `changed |= visited.insert(node)`   (35309c1)
-          WaitForVisited      \* TRUE: a node none of whose predecessors was visited waits (3bcec8a, 8e3b21a)
+          WaitForVisited,     \* TRUE: a node none of whose predecessors was visited waits (3bcec8a, 8e3b21a)
+          RootsAreEntries     \* TRUE: a node that was promoted to a root starts from "nothing known" at every visit,
+                              \*       like an entry of the program (FALSE: only at its first visit - the scheme
+                              \*       that TLC refutes at N = 4: facts flip between two states for ever)
 
 Nodes == 1..N
 
@@ -69,7 +77,7 @@ Visit ==
      IN IF ShouldWait(WaitForVisited, Prevs(n), visited, roots, n)
           THEN /\ waiting' = (IF waiting = 0 THEN n ELSE waiting)
                /\ UNCHANGED <<fin, fout, visited, changed, saved>>
-          ELSE LET i == Meet(vp)
+          ELSE LET i == RootIn(RootsAreEntries, roots, n, Meet(vp))
                    o == F(n, i)
                IN /\ fin'  = [fin  EXCEPT ![n] = i]
                   /\ fout' = [fout EXCEPT ![n] = o]
@@ -112,9 +120,11 @@ Next == Visit \/ SweepEnd \/ Cut \/ Rerun
 Spec == Init /\ [][Next]_vars /\ WF_vars(Next)
 
 \* ------------------------------------------------------------------ properties
-SweepBound == sweeps <= SweepLimit(N)
+SweepBound == sweeps <= ModelSweepLimit(N)
+\* a slice of the graphs for the negative control at N = 4 (PassLoop_old3.cfg)
+NoKill == \A n \in Nodes : kill[n] = {} /\ gen[n] = (IF n = N THEN Facts ELSE {})
 FixedPoint == (pc = "done" /\ ~cutDone) =>
-                \A n \in Nodes : /\ fin[n] = Meet(Prevs(n))
+                \A n \in Nodes : /\ fin[n] = RootIn(RootsAreEntries, roots, n, Meet(Prevs(n)))
                                  /\ fout[n] = F(n, fin[n])
 \* a run that started on the facts of a finished run of the same graph ends with the same facts
 \* (facts may change and change back while it runs)
